@@ -4,6 +4,7 @@ Require Extraction.
 Require Import ExtrOcamlBasic.
 From Coq Require Import List NArith Strings.String.
 From V Require Import Base.Bytes Base.Res Gen.Tables Model.Escape Spec.EscapeSpec.
+From V Require Import Gen.Cli Model.CliModel Spec.CliDoc.
 Extraction Language OCaml.
 Set Extraction KeepSingleton.
 
@@ -23,4 +24,36 @@ Extraction "model.ml"
   EscapeSpec.no_pct_hex
   EscapeSpec.lex_start_tag
   EscapeSpec.utf8_valid
+  Cli.options_of_cli
+  CliDoc.documented_options
+  Cli.cli_of_assoc
+  Cli.copts_to_assoc
+  Cli.formatter_of
+  CliDoc.documented_renderer
+  Cli.sink_of
+  CliDoc.documented_sink
+  Cli.highlighter_of
+  CliDoc.documented_highlighter
+  Cli.installs_highlighter
+  Cli.inplace_precheck
+  Cli.cli_flags
+  Cli.all_extensions
+  Cli.extension_name
+  Cli.all_formats
+  Cli.format_name
+  Cli.all_list_styles
+  Cli.list_style_name
+  Cli.list_style_type_name
+  Cli.renderer_name
+  Cli.unset_option_fields
+  Cli.gfm_fields
+  Cli.inplace_conflicts
+  Cli.gated_flags
+  Cli.read_error_exit
+  Cli.config_parse_error_exit
+  Cli.success_exit
+  CliModel.cli_with_config_model
+  CliModel.clap_accepts
+  CliModel.clap_usage_error_exit
+  CliDoc.overlapping_config
 .
